@@ -168,7 +168,7 @@ def gen_ds_cfg(rng, scene, kind, scale_one=False):
         "paf_sigma": rng.choice([2.0, 4.0]),
         "paf_stride": rng.choice([s for s in (1, 2, 4, 8) if s <= max(max_stride, 1)] or [1]),
         "crop_hw": [rng.choice([16, 24, 32, 48])] * 2,
-        "user_instances_only": True,
+        "user_instances_only": rng.random() < 0.75,  # False: predicted instances are training data too
     }
     if rng.random() < 0.3:
         # a user-supplied max size different from the data's (size matching up or down)
